@@ -1,6 +1,6 @@
 (** IdsWitness.v — concrete witnesses (by computation) for the C13 refutations and non-vacuity examples. *)
 From Coq Require Import String Ascii List NArith Arith Bool.
-From LC Require Import Common IdsDefs IdsProofs IdsProofs2.
+From LC Require Import Common IdsDefs IdsProofs IdsProofs2 IdsProofs3 IdsProofs4 IdsHash IdsMulti.
 Import ListNotations.
 Open Scope string_scope.
 Open Scope list_scope.
@@ -195,4 +195,21 @@ Lemma multi_witness :
   hash_string cfg_fixed st_one (nth_ids (m_ids (fst r)) 0) = hash_string cfg_fixed st_one (nth_ids (m_ids (fst r)) 1) /\
   a_owner (m_ann (fst r)) = 1 /\ a_model (m_ann (fst r)) = 1 /\
   nth 5 (snd r) RNone = REntry (Some (mk_entry "x" (vis KComp 2))).
+Proof. vm_compute. repeat split; reflexivity. Qed.
+
+(* structural edit after hand-over: the second component of st_eq is removed (its variable 7, still equivalent to
+   variable 4, is then outside the model); the hash separates the two models and the look-up answers for the new one *)
+Definition st_eq_removed : structure :=
+  {| st_model := 0; st_enc := 1; st_units := [];
+     st_comps := [ {| cs_slot := 2; cs_imp := None; cs_enc := 3; cs_top := true; cs_kids := false; cs_sib := 0;
+                      cs_vars := [ {| vs_slot := 4; vs_eqs := [ {| es_map := 8; es_conn := 9; es_other := 7 |} ] |} ];
+                      cs_resets := []; cs_math := [] |} ] |}.
+Lemma structural_edit_witness :
+  let h := [MEdit 0 4 "a"; MEdit 0 7 "b"; MEdit 0 8 "m"; MSetModel 0; MOp OIds; MStruct 0 1; MOp OIds; MOp OAssignAll] in
+  let r := mrun cfg_fixed [st_eq; st_eq_removed] (minit [ids10] [0]) h in
+  let ids := ["";"";"";"";"a";"";"";"b";"m";""] in
+  nth 4 (snd r) RNone = RStrs ["a"; "b"; "m"] /\ nth 6 (snd r) RNone = RStrs ["a"; "m"] /\
+  hash_separates cfg_fixed st_eq ids st_eq_removed ids = true /\
+  a_has_model (m_ann (fst r)) = true /\
+  nth_ids (m_ids (fst r)) 0 = ["b4da55"; "b4da58"; "b4da56"; ""; "a"; ""; ""; "b"; "m"; "b4da57"].
 Proof. vm_compute. repeat split; reflexivity. Qed.
